@@ -85,9 +85,9 @@ SECOND_POOL_WORKERS = 6
 
 def plan(tier: str) -> list:
     if tier == "quick":
-        return [{"name": "nofault", "n": 18, "faults": False,
+        return [{"name": "nofault", "n": 14, "faults": False,
                  "domains": ["bp", "bp", "tsp", "ttp", "qap"]},
-                {"name": "fault", "n": 44, "faults": True,
+                {"name": "fault", "n": 38, "faults": True,
                  "domains": ["bp", "bp", "bp", "bp", "tsp", "tsp", "ttp",
                              "ttp", "qap", "qap", "ttpmo", "atsp"]},
                 {"name": "heavy", "n": 8, "faults": True,
@@ -391,6 +391,7 @@ def boot_main(argv: list) -> int:
             # what is on disk right now (own reader): a claimed-but-empty or
             # torn file legitimately makes the directory evaluation raise
             bad_now = []
+            good_now = []
             for root0, _d0, names0 in os.walk(base):
                 for nm in names0:
                     if nm.endswith(".txt"):
@@ -398,15 +399,18 @@ def boot_main(argv: list) -> int:
                         try:
                             with open(p0, encoding="utf-8") as f0:
                                 jobs.record_from_log_text(f0.read())
+                            good_now.append(os.path.relpath(p0, base))
                         except ValueError:
                             bad_now.append(os.path.relpath(p0, base))
-            _emit(ev, {"e": "disk", "incomplete": sorted(bad_now)})
+            _emit(ev, {"e": "disk", "incomplete": sorted(bad_now),
+                       "complete": sorted(good_now)})
             got = []
             try:
                 from_logs(base, got.append)
-                whole = [str(r.end_result.algorithm) + "|"
-                         + str(r.end_result.instance) + "|"
-                         + hex(r.end_result.rand_seed) for r in got]
+                whole = [str(r.end_result.algorithm) + "_"
+                         + str(r.end_result.instance) + "_"
+                         + hex(r.end_result.rand_seed) + ".txt"
+                         for r in got]
                 _emit(ev, {"e": "from_logs", "order": whole})
             except Exception as exc:  # noqa: BLE001
                 _emit(ev, {"e": "from_logs", "raised":
@@ -1125,9 +1129,11 @@ def _run_scenario(doc, dom, budget, root, base, res, seeds_fn) -> None:
     # ---------------------------------------------------------------- parse-back (bin packing)
     by_seed: dict = {}
     bad_at_eval: list = []
+    good_at_eval: list = []
     for bi, r in events:
         if r["e"] == "disk":
             bad_at_eval = r["incomplete"]
+            good_at_eval = r.get("complete", [])
         if r["e"] == "from_logs":
             core.bump(res["probes"], "evaluate_from_logs")
             core.bump(res["faults"], "listing_permuted")
@@ -1136,6 +1142,20 @@ def _run_scenario(doc, dom, budget, root, base, res, seeds_fn) -> None:
                                f"from_logs over a directory of complete "
                                f"logs raised {r['raised']}")
                 return
+            if "order" in r:
+                # when the directory evaluation returns, it must deliver
+                # every completed run that is on disk (raising because of
+                # an empty/torn file is fine, silently dropping runs is not)
+                want_set = sorted(os.path.basename(q) for q in good_at_eval)
+                if sorted(r["order"]) != want_set:
+                    missing = sorted(set(want_set) - set(r["order"]))
+                    core.violation(
+                        res, "from_logs-result-set-wrong",
+                        f"from_logs returned {len(r['order'])} results for "
+                        f"{len(want_set)} completed logs on disk "
+                        f"({len(bad_at_eval)} incomplete files present); "
+                        f"missing {missing[:4]}")
+                    return
         if r["e"] != "parsed":
             continue
         rel = r["file"]
